@@ -605,6 +605,21 @@ def build_script_model(spec, shared=None):
             except Exception as e:  # noqa: BLE001
                 model.log.append(["rejected", type(e).__name__])
             model.agents.shuffle_do("act")
+        elif k == "nbhd_walk":
+            # SCALE: every agent walks to a random cell of a LARGE neighbourhood (radius op[1]) and picks a random agent in it
+            r = op[1]
+            if cellspace:
+                for j, a in enumerate(model.agents.shuffle()):
+                    if a.cell is None:
+                        continue
+                    nb = a.cell.get_neighborhood(radius=r, include_center=False)
+                    if len(nb):
+                        if j % 3 == 0 and any(True for _ in nb.agents):
+                            a.friend = nb.select_random_agent().unique_id
+                        if model.capacity is None:
+                            a.cell = nb.select_random_cell()
+                        else:
+                            a.mark = sum(int(x) for x in (nb.select_random_cell().coordinate if isinstance(nb.cells[0].coordinate, tuple) else [nb.select_random_cell().coordinate]))
         elif k == "relocate":
             # every agent, in random order, moves to a random empty cell (nearly full grids: many draws, both strategies)
             for a in model.agents.shuffle():
@@ -1117,6 +1132,13 @@ def _prior_for(job, j):
                        {"kind": "example", "model": other, "kwargs": EXAMPLES[other][2], "seed": job["seed"], "steps": 2}]
     if job["kind"] == "script":
         sp = dict(job["spec"], seed=job["spec"]["seed"] + 1)
+        if job["spec"].get("scale"):      # MANY models in the process before the measured one
+            import random as _r
+
+            g = _r.Random(job["spec"]["seed"] + j)
+            small = [dict(_script_spec(g), seed=g.randrange(1000)) for _ in range(40)]
+            big = dict(sp, n=min(sp["n"], 60), ops=sp["ops"][:1])
+            return [{"kind": "script", "spec": x} for x in small] + [{"kind": "script", "spec": big}]
         return [{"kind": "script", "spec": sp}]
     return []
 
@@ -2165,6 +2187,48 @@ def _dense_spec(rng, kind=None):
             "capacity": 1 if kind != "single" else None, "n": w * h - rng.randint(2, 4), "ops": ops, "dense": True}
 
 
+def _scale_world(rng, n=1030):
+    """SCALE, model-tied: > 1024 agents in the registry; shuffles, selections at 1025, sort and groups over all of them"""
+    return {"kind": "world", "seed": rng.randrange(10**6), "agents": [[rng.randrange(2), rng.randrange(4)] for _ in range(n)],
+            "space_seeded": True, "cw": 2, "ch": 2, "ctorus": False, "moore": True, "cell_of": [[i + 1, i % 4] for i in range(0, n, 7)],
+            "lw": 2, "lh": 2, "lplace": [], "salt": 5, "falsy": True, "xspaces": ["multi"],
+            "ops": [["derive", ["shuffle", ["agents"]]], ["shuffle_do", ["select", ["agents"], 0, 1025]], ["create", 1, [1] * 260],
+                    ["xplace", 0, n + 5, 2], ["derive", ["sort", ["select", ["bytype", 1], 2, 257], False]], ["reset", False],
+                    ["shuffle_do", ["space_agents"]], ["remove", 1024], ["derive", ["group", ["agents"], 3]]]}
+
+
+def _scale_specs(rng, thorough=False, broken=False):
+    """SCALE stream (implementation against implementation only): sizes and counts that cross the thresholds small examples
+    never reach - neighbourhoods of radius 9..20 on tori of 400-900 cells (several thousand entries to merge), > 1024 agents in
+    one AgentSet, > 256 steps, 40 models in the process before the measured one"""
+    sd = rng.randrange(1000)
+    out = [
+        # Moore torus 20x20: a radius-9 neighbourhood merges 8 x 289 = 2312 entries, radius 10 covers the whole torus
+        {"form": "seed", "seed": sd, "space": "moore", "w": 20, "h": 20, "torus": True, "capacity": None, "n": 36,
+         "ops": [["nbhd_walk", 9], ["nbhd_walk", 10], ["step"], ["rand_agent"]], "scale": True},
+        # 1100 agents in model.agents / by-type sets / groups (> 1024), no space
+        {"form": "rng-int", "seed": sd + 1, "space": "none", "w": 2, "h": 2, "torus": False, "capacity": None, "n": 1100,
+         "ops": [["shuffle_do"], ["shuffle_inplace"], ["select_frac"], ["by_type"], ["groupby"], ["remove"], ["shuffle_copy_do"]], "scale": True},
+        # 260 steps of a small model (> 256)
+        {"form": "seed", "seed": sd + 2, "space": rng.choice(["moore", "single", "netgrid"]), "w": 4, "h": 4, "torus": True, "capacity": None, "n": 7,
+         "ops": [["step"]] * 260, "scale": True},
+    ]
+    out.append({"form": "seed", "seed": sd + 3, "space": "hex", "w": 30, "h": 30, "torus": False, "capacity": None, "n": 60,
+                "ops": [["nbhd_walk", 12], ["nbhd_walk", 13]], "scale": True})
+    if thorough or broken:
+        out += [
+            {"form": "seed", "seed": sd + 4, "space": "vonneumann", "w": 36, "h": 36, "torus": True, "capacity": None, "n": 40,
+             "ops": [["nbhd_walk", 17], ["nbhd_walk", 20]], "scale": True},
+            {"form": "rng-int", "seed": sd + 5, "space": "network", "w": 20, "h": 20, "torus": False, "capacity": None, "n": 40,
+             "ops": [["nbhd_walk", 18]], "scale": True},
+            {"form": "seed", "seed": sd + 6, "space": "moore", "w": 30, "h": 30, "torus": True, "capacity": 2, "n": 300,
+             "ops": [["nbhd_walk", 9], ["step"], ["nbhd_walk", 16]], "scale": True},
+            {"form": "seed", "seed": sd + 7, "space": "multi", "w": 33, "h": 33, "torus": True, "capacity": None, "n": 2050,
+             "ops": [["shuffle_do"], ["space_agents"], ["groupby"]], "scale": True},
+        ]
+    return out
+
+
 def gen_cases(rng, tier):
     thorough = tier == "thorough"
     cases = []
@@ -2187,6 +2251,10 @@ def gen_cases(rng, tier):
         dense = [_dense_spec(rng, dkinds[(2 * ci + j) % 4]) for j in range(2 if not thorough else 4)]
         cases.append({"kind": "env", "hashseeds": hashseeds if not thorough else hashseeds[:4], "priors": True,
                       "jobs": [{"kind": "script", "spec": sp} for sp in specs[s:s + per] + dense]})
+    # SCALE stream: its own environment case (3 jobs, each first in one interpreter)
+    sc = _scale_specs(rng, thorough)
+    for s0 in range(0, len(sc), 4):
+        cases.append({"kind": "env", "hashseeds": hashseeds[:3], "priors": True, "jobs": [{"kind": "script", "spec": sp} for sp in sc[s0:s0 + 4]]})
     # re-seeding
     cases.append({"kind": "env", "hashseeds": [0, 1], "priors": False,
                   "jobs": [{"kind": "reset", "form": f, "seed": rng.randrange(10**6), "n": 8}
@@ -2206,6 +2274,9 @@ def gen_cases(rng, tier):
     # model-tied worlds
     nw = 240 if not thorough else 6000
     worlds = [_gen_world(rng, big=(i % 8 == 7)) for i in range(nw)]
+    worlds.insert(len(worlds) // 2, _scale_world(rng))
+    if thorough:
+        worlds.insert(7, _scale_world(rng, 2060))
     # interleave: the framework hands consecutive histories to one pool worker, the env histories are the slow ones
     envs = cases
     k = max(1, len(worlds) // max(1, len(envs)))
@@ -2320,7 +2391,7 @@ RULE = ("model-tied 'world' histories = one mesa.Model(seed) with <= 7 agents of
         "followed by more steps, nearly full capacity-1 grids relocated under both empty-cell strategies, measured fresh and again after a "
         "prior model that was given the very same graph / PropertyLayer / list / dict objects plus an allocation churn; re-seeding replays "
         "through 11 collections derived before the reset for all 12 seed forms; the seed+rng ValueError boundary; batch_run with 1/2(/3) "
-        "spawn workers and batch_run(number_processes=1) over one shared graph against pristine graphs.  non-trivial = a world history "
+        "spawn workers and batch_run(number_processes=1) over one shared graph against pristine graphs; a SCALE stream (radius 9-13 neighbourhood walks on 20x20 Moore and 30x30 hex spaces, 1100 agents, 260 steps, 40 models in the process, a 1030-agent model-tied world; larger in thorough).  non-trivial = a world history "
         "with >= 2 operations and a non-error observation, or an env history with a multi-step digest; distinct = by SHA1 of the history")
 TRUSTED_BASE = [
     "Coq 8.16.1 kernel (coqc); vm_compute for finite facts about regenerated tables and for evaluating the model in the correspondence",
